@@ -13,8 +13,23 @@ ROWSET = [(1, 1), (1, 2), (2, 1), (NULL, 1), (2, NULL)]
 INTEGRATIONS = ['int1', 'int2']
 
 
-def plan_case(sql, integrations=None, default_namespace='mindsdb', extra=None):
-    """-> dict(status=..., [plan json]) for one SQL text."""
+def _rename(o, back):
+    """Replace, everywhere in a semantic JSON value, a string equal (case-insensitively) to a renamed integration by the
+    canonical name of the model's schema."""
+    if isinstance(o, dict):
+        return {k: _rename(v, back) for k, v in o.items()}
+    if isinstance(o, list):
+        return [_rename(v, back) for v in o]
+    if isinstance(o, str) and o.lower() in back:
+        return back[o.lower()]
+    return o
+
+
+def plan_case(sql, integrations=None, default_namespace='mindsdb', extra=None, rename_back=None):
+    """-> dict(status=..., [plan json]) for one SQL text.
+    rename_back {name used in this catalog (lower case): canonical schema name}: the integration is called differently
+    in this run (catalog and SQL text); semantic values are mapped back so that the schema of the model applies."""
+    back = {k.lower(): v for k, v in (rename_back or {}).items()}
     from mindsdb_sql import parse_sql
     from mindsdb_sql.planner import plan_query
     from mindsdb_sql.exceptions import PlanningException
@@ -25,7 +40,7 @@ def plan_case(sql, integrations=None, default_namespace='mindsdb', extra=None):
         out['status'] = 'parse-error:%s' % type(e).__name__
         return out
     try:
-        orig = sem.query(tree)
+        orig = _rename(sem.query(tree), back)
     except sem.Unsupported as e:
         out['status'] = 'unsupported-original:%s' % e
         return out
@@ -46,10 +61,11 @@ def plan_case(sql, integrations=None, default_namespace='mindsdb', extra=None):
         return out
     out['nsteps'] = len(plan.steps)
     out['kinds'] = [type(s).__name__ for s in plan.steps]
-    out['fetch_sql'] = [(str(getattr(s, 'integration', '')), str(getattr(s, 'query', '')))
+    out['fetch_sql'] = [(back.get(str(getattr(s, 'integration', '')).lower(), str(getattr(s, 'integration', ''))),
+                         str(getattr(s, 'query', '')))
                         for s in plan.steps if type(s).__name__ == 'FetchDataframeStep']
     try:
-        steps = sem.plan_steps(plan)
+        steps = _rename(sem.plan_steps(plan), back)
     except sem.Unsupported as e:
         out['status'] = 'unsupported-plan:%s' % e
         return out
